@@ -17,6 +17,7 @@ import (
 	"sort"
 	"strings"
 	"sync"
+	"sync/atomic"
 	"time"
 
 	"github.com/gogo/protobuf/proto"
@@ -131,6 +132,9 @@ func (c cacheCfg) real() *blockchain.CacheConfig {
 // transactions are skipped by commitBlock); "galaxias" = the fork is block 1 (block 1 applies the fork
 // contracts, later blocks are pre-executed by the proposer through newProposalBlock/commitTransactions).
 //
+// "<kind>+factory": a CREATE2 factory is part of the genesis allocation; the multi-purpose contract is created (and
+// after a self-destruct RE-created at the same address) by calling it.
+//
 // "<kind>+alloc": the multi-purpose contract is part of the GENESIS allocation with non-zero values in every slot
 // the templates touch, so those values live in the snapshot's DISK layer from the start (a contract deployed by a
 // transaction has its storage in a diff layer).
@@ -162,16 +166,27 @@ func makeGenesis(chainKind string) *genesis.Genesis {
 			},
 		}
 	}
+	if strings.HasSuffix(chainKind, "+factory") {
+		g.ChainID += "-factory"
+		g.Alloc[factoryAddr] = genesis.GenesisAccount{Balance: big.NewInt(0), Code: append([]byte{}, factoryRuntime...)}
+	}
 	return g
 }
 
 var allocContract = common.HexToAddress("0x00000000000000000000000000000000000c0de6")
+var factoryAddr = common.HexToAddress("0x0000000000000000000000000000000000fac706")
+
+// create2Child is where the factory's CREATE2 (salt 0, init code child2Init) puts the multi-purpose contract.
+var create2Child = crypto.CreateAddress2(factoryAddr, [32]byte{}, crypto.Keccak256(child2Init))
 
 // contractAddr is the address of the multi-purpose contract on a chain kind: the genesis allocation's, or the one A's
 // first transaction creates.
 func contractAddr(kind string) common.Address {
 	if strings.HasSuffix(kind, "+alloc") {
 		return allocContract
+	}
+	if strings.HasSuffix(kind, "+factory") {
+		return create2Child
 	}
 	return crypto.CreateAddress(addrA, 0)
 }
@@ -208,6 +223,8 @@ type node struct {
 	exec  *cstate.BlockExecutor
 	state cstate.LatestBlockState
 	gen   *genesis.Genesis
+
+	capEvery bool // flatten the snapshot to disk after every applied block
 
 	mu           sync.Mutex
 	txErrs       map[common.Hash]string // "ApplyTransaction failed" records of the last block (BlockOperations' logger)
@@ -589,9 +606,17 @@ func (n *node) applyBlock(block *types.Block, parts *types.PartSet, seen *types.
 		return o
 	}
 	n.state = st
+	if n.capEvery && n.bc.VerifC06HasSnapshots() {
+		// a long-running node whose diff layers are merged into the disk layer (Tree.Cap(root, 0), public API)
+		if err := n.bc.VerifC06FlattenSnapshot(st.AppHash); err == nil {
+			flattenings.Add(1)
+		}
+	}
 	n.observe(o, block)
 	return o
 }
+
+var flattenings atomic.Int64
 
 func (n *node) observe(o *obs, block *types.Block) {
 	st := n.state
@@ -695,6 +720,7 @@ func (n *node) restart(cfg cacheCfg) (*node, error) {
 		return nil, fmt.Errorf("restarted node is at height %d, the stopped node was at %d", h, st.LastBlockHeight)
 	}
 	m.state = st
+	m.capEvery = n.capEvery
 	return m, nil
 }
 
